@@ -39,7 +39,7 @@ def lebedev(n):
 
 def _becke_step(mu):
     for _ in range(3):
-        mu = 1.5 * mu - 0.5 * mu ** 3
+        mu = mu * (1.5 - 0.5 * mu * mu)
     return mu
 
 
@@ -385,22 +385,35 @@ def sdmx_feature(prof, j, family, prefac=-0.25):
     return prefac * 4 * math.pi * _trapz_log(R, f, small_R_power=p)
 
 
-def sdmx_cross_feature(prof, j, deriv, ratio, prefac=-0.25):
-    """SDMXFullSettings l = 0 cross term: prefac * 4 pi int dR R^p g(R / sqrt(ratio)) g(R sqrt(ratio)), g = rho0 or
-    d rho0/dR (convention of checks/c13.py); needs the profile on a log-uniform grid to shift by ln(ratio)/2."""
-    R = prof["R"]
-    t = np.log(R)
-    g = prof["rho0d"] if deriv else prof["rho0"]
-    sh = 0.5 * math.log(ratio)
+def _shifted(t, g, sh, small_power):
+    """g(t - sh), g(t + sh) for samples g on the uniform grid t = ln R (cubic spline; beyond the sampled range
+    g ~ R^small_power for R -> 0 and 0 for R -> inf)."""
     from scipy.interpolate import CubicSpline
     cs = CubicSpline(t, g)
-    lo = cs(t - sh)
-    hi = cs(t + sh)
-    ok = (t - sh >= t[0]) & (t + sh <= t[-1])
-    # outside the sampled range: rho0 -> n (R -> 0), -> 0 (R -> inf); derivative -> 0
-    lo = np.where(t - sh >= t[0], lo, g[0] if not deriv else g[0] * np.exp(t - sh - t[0]))
-    hi = np.where(t + sh <= t[-1], hi, 0.0)
-    del ok
-    pw = (4.0 if deriv else 2.0) - j
-    f = R ** pw * lo * hi
-    return prefac * 4 * math.pi * _trapz_log(R, f, small_R_power=pw + (2.0 if deriv else 0.0))
+    lo = np.where(t - sh >= t[0], cs(np.maximum(t - sh, t[0])), g[0] * np.exp(small_power * (t - sh - t[0])))
+    hi = np.where(t + sh <= t[-1], cs(np.minimum(t + sh, t[-1])), 0.0)
+    return lo, hi
+
+
+def sdmx_cross_feature(prof, j, family, ratio, prefac=-0.25):
+    """SDMXFullSettings cross term (not documented; convention of checks/c13.py extended to l = 1):
+    prefac * 4 pi int dR R^p g(R / sqrt(ratio)) . g(R sqrt(ratio)) with g = rho0, d rho0/dR (chain-rule factors of the
+    two arguments cancel) or the vector rho1."""
+    R = prof["R"]
+    t = np.log(R)
+    sh = 0.5 * math.log(ratio)
+    if family == "0":
+        lo, hi = _shifted(t, prof["rho0"], sh, 0.0)
+        f, pw, sp = lo * hi, 2.0 - j, 2.0 - j
+    elif family == "0d":
+        lo, hi = _shifted(t, prof["rho0d"], sh, 1.0)
+        f, pw, sp = lo * hi, 4.0 - j, 6.0 - j
+    elif family == "1":
+        f = 0.0
+        for x in range(3):
+            lo, hi = _shifted(t, prof["rho1"][x], sh, 0.0)
+            f = f + lo * hi
+        pw, sp = 4.0 - j, 4.0 - j
+    else:
+        raise ValueError(family)
+    return prefac * 4 * math.pi * _trapz_log(R, R ** pw * f, small_R_power=sp)
